@@ -5,9 +5,9 @@ against it in /repo (apply, check, undo) and file it under /verif/seeded/<Cxx>-<
 import json, os, re, shutil, subprocess, sys
 pid, k = sys.argv[1], sys.argv[2]
 checks = sys.argv[3:] or [pid]
-wt = "%s/%s" % (os.environ.get("SEED_BASE", "/tmp/seed"), pid)
+wt = os.environ.get("SEED_WT") or "%s/%s" % (os.environ.get("SEED_BASE", "/tmp/seed"), pid)
 out_k = os.environ.get("SEED_OUT_K", k)
-src = "%s/OUT/change%s" % (wt, k)
+src = os.environ.get("SEED_SRC") or "%s/OUT/change%s" % (wt, k)
 meta = json.load(open(src + "/meta.json"))
 env = dict(os.environ, CARGO_NET_OFFLINE="true")
 def sh(cmd, cwd=None):
@@ -32,7 +32,7 @@ os.makedirs("%s/%s/tests" % (wt, crate), exist_ok=True)
 shutil.copy(src + "/demo_test.rs", "%s/%s/tests/%s.rs" % (wt, crate, name))
 cmd = "cargo test --offline -p %s %s --test %s 2>&1 | tail -15" % (crate, feat, name)
 rc, out_with = sh(cmd, wt)
-fails_with = "test result: FAILED" in out_with or "panicked" in out_with
+fails_with = "test result: FAILED" in out_with or "panicked" in out_with or "could not compile" in out_with
 ran.append("with change: %s -> %s" % (cmd, "FAILS (as required)" if fails_with else "does NOT fail:\n" + out_with[-600:]))
 sh("git apply -R %s/patch.diff" % src, wt)
 rc, out_wo = sh(cmd, wt)
